@@ -10,6 +10,7 @@ Sources (none of them is crysp):
  * the small reference implementation below, written from the specification and accepted only if it
    reproduces ALL of the above (assertions), for everything else (8/12/other round counts, counters
    around 2^32, lengths).
+The 1 000 000-fold iteration takes ~90 s and is only run with --slow (it passed when the file was frozen).
 Record kinds:
    {"kind":"core",  "rounds":r, "x":[64 bytes], "out":[64 bytes]}
    {"kind":"expand","key":[16|32], "n":[16], "out":[64]}                       (20 rounds, as in the spec)
@@ -87,6 +88,12 @@ def validate():
                                           0x00000001, 0x00002000, 0x80040000, 0x00000000, 0x00000001, 0x00000200, 0x00402000, 0x88000100]
     # section 5: columnround
     assert columnround([1, 0, 0, 0] * 4) == [0x10090288, 0, 0, 0, 0x00000101, 0, 0, 0, 0x00020401, 0, 0, 0, 0x40a04001, 0, 0, 0]
+    X2 = [0x08521bd6, 0x1fe88837, 0xbb2aa576, 0x3aa26365, 0xc54c6a5b, 0x2fc74c2f, 0x6dd39cc3, 0xda0a64f6,
+          0x90a2f23d, 0x067f95a6, 0x06b35f61, 0x41e4732e, 0xe859c100, 0xea4d84b7, 0x0f619bff, 0xbc6e965a]
+    assert rowround(X2) == [0xa890d39d, 0x65d71596, 0xe9487daa, 0xc8ca6a86, 0x949d2192, 0x764b7754, 0xe408d9b9, 0x7a41b4d1,
+                            0x3402e183, 0x3c3af432, 0x50669f96, 0xd89ef0a8, 0x0040ede5, 0xb545fbce, 0xd257ed4f, 0x1818882d]
+    assert columnround(X2) == [0x8c9d190a, 0xce8e4c90, 0x1ef8e9d3, 0x1326a71a, 0x90a20123, 0xead3c4f3, 0x63a091a0, 0xf0708d69,
+                               0x789b010c, 0xd195a681, 0xeb7d5504, 0xa774135c, 0x481c2027, 0x53a8e4b5, 0x4c1f89c5, 0x3f78c9c8]
     # section 6: doubleround
     assert doubleround([1] + [0] * 15) == [0x8186a22d, 0x0040a284, 0x82479210, 0x06929051, 0x08000090, 0x02402200, 0x00004000, 0x00800000,
                                            0x00010200, 0x20400000, 0x08008104, 0x00000000, 0x20500000, 0xa0000040, 0x0008180a, 0x612a8020]
